@@ -55,7 +55,7 @@ def shards(tier):
 
 def floors(tier):
     f = {"cases": 15000, "cases_with_errors": 4000, "arrangements": 3000, "chains": 300, "inner_store_refs": 100,
-         "siblings_next_to_ref": 300, "hostile_name_resolutions": 2000, "recursive_cases": 1000, "recursive_with_asserting_siblings": 300, "near_identical_url_cases": 2000, "same_string_chain_cases": 800, "cases_with_a_resolver_that_keeps_nothing": 3000, "retrieval_uri_cases": 400, "id_collision_cases": 300, "reused_after_failed_retrieval": 500, "local_reference_arrangements_through_cli": 150,
+         "siblings_next_to_ref": 300, "hostile_name_resolutions": 2000, "recursive_cases": 1000, "recursive_with_asserting_siblings": 300, "near_identical_url_cases": 2000, "same_string_chain_cases": 800, "configured_validator_cases": 250, "cases_with_a_resolver_that_keeps_nothing": 3000, "retrieval_uri_cases": 400, "id_collision_cases": 300, "reused_after_failed_retrieval": 500, "local_reference_arrangements_through_cli": 150,
          "recursion_depth3plus": 200, "model_crosschecks": 2000, "max_scope_depth": 3, "transform_selfcheck_ok": 3000, "foreign_id_keywords_on_path": 500, "relative_id_in_store_doc": 200, "reused_after_validate": 5000,
          "uri_calibration": 60}
     for m in ("noid", "rootid", "rootid#", "nested"):
@@ -418,6 +418,47 @@ def same_string_chains(ctx):
                                         model=False)
 
 
+def configured_validators(ctx):
+    """What the validator was configured with (a format checker, the deprecated types= argument) applies on the far side of
+    a reference exactly as on the near side: the schema with the targets written in place, under the same configuration,
+    is the yardstick."""
+    import warnings
+    import jsonschema
+    fc = jsonschema.FormatChecker(formats=())
+    fc.checks("vf-even")(lambda v: not isinstance(v, str) or len(v) % 2 == 0)
+    insts = [{"a": "x"}, {"a": "xy"}, {"b": "x"}, {"c": ["x", "xy", 5]}, {"a": 5, "b": 5}, {"a": "x", "b": "xyz", "c": ["xyz"]}, {"c": [5, None]}, {}]
+    for d in impl.DRAFTS:
+        cls = impl.CLS[d]
+        idk = impl.IDKW[d]
+        for leaf in ({"format": "vf-even"}, {"type": "string"}, {"type": "string", "format": "vf-even"}, {"items": {"format": "vf-even"}, "type": ["array", "string"]}):
+            for conf in ("format_checker", "types", "both"):
+                kw = {}
+                if conf in ("format_checker", "both"):
+                    kw["format_checker"] = fc
+                if conf in ("types", "both"):
+                    kw["types"] = {"string": (str, int)}
+                docs = {R.STORE_DIR + "conf.json": {"definitions": {"f": leaf, "g": {"$ref": "#/definitions/f"}}}}
+                hdocs = {R.HANDLER_DIR + "conf.json": {"definitions": {"f": leaf}}}
+                S = {idk: R.ROOT_URL, "definitions": {"f": leaf},
+                     "properties": {"a": {"$ref": "#/definitions/f"}, "b": {"$ref": R.STORE_DIR + "conf.json#/definitions/g"},
+                                    "c": {"items": {"$ref": R.HANDLER_DIR + "conf.json#/definitions/f"}}}}
+                S0 = {"properties": {"a": leaf, "b": leaf, "c": {"items": leaf}}}
+                for inst in insts:
+                    ctx.count("configured_validator_cases")
+                    case = {"draft": d, "schema": S, "s0": S0, "store": docs, "handler_docs": hdocs, "instance": inst, "info": {"probe": "configured validator", "configuration": conf}}
+                    try:
+                        with warnings.catch_warnings():
+                            warnings.simplefilter("ignore")
+                            want = locs(cls(S0, **kw).iter_errors(inst))
+                            got = locs(cls(S, resolver=make_resolver(d, S, docs, hdocs), **kw).iter_errors(inst))
+                    except Exception as e:
+                        ctx.violation("resolvable-reference-failed", case, "%s: %s" % (type(e).__name__, str(e)[:100]))
+                        continue
+                    ctx.case([d, S, inst, conf], nontrivial=bool(want))
+                    if got != want:
+                        ctx.violation("locations-differ", case, "validator configured with %s: error locations with references %r, inlined %r" % (conf, got[:3], want[:3]))
+
+
 def recursive_part(ctx, rng, n):
     for i in range(n):
         d = impl.DRAFTS[i % 4]
@@ -481,6 +522,7 @@ def run(ctx):
     if ctx.shard == 1 % ctx.nshards:
         near_identical_urls(ctx)
         same_string_chains(ctx)
+        configured_validators(ctx)
     if ctx.shard == 2 % ctx.nshards:
         retrieval_uri_cases(ctx)
     if ctx.shard == 3 % ctx.nshards:
@@ -561,4 +603,9 @@ def run(ctx):
 def replay(ctx, rec):
     impl.quiet()
     c = rec["case"]
+    if c.get("info", {}).get("probe") == "configured validator":
+        configured_validators(ctx)          # small and deterministic: the whole family again
+        return
+    if "instances" in c and c.get("info", {}).get("probe") is None and "cli" in str(rec.get("kind", "")):
+        pass
     compare(ctx, c["draft"], c["schema"], c["s0"], c.get("store", {}), c.get("handler_docs", {}), c["instance"], c.get("info", {}))
